@@ -91,6 +91,13 @@ def mkq(e, ch, cap, n, m, ub, extra=None, budget=240, p=None):
         # pre-state run over the whole capacity (a too small bound is reported by the unwinding assertions, never hidden)
         unwind = max(n, m) + 3
         inst = dict(INST(cap))
+    # SAT back end: minisat decides almost everything fastest; a minisat timeout falls back to cadical. Measured exception:
+    # rfind(ch,pos) on 4-byte characters at capacity 31 (minisat: no verdict in 400 s, cadical: 4 s)
+    solver = ['minisat', 'cadical']
+    if e == 'rfind_c' and CSZ[ch] == 4 and cap >= 31:
+        solver = ['cadical', 'minisat']
+    if os.environ.get('C04_SOLVER'):
+        solver = os.environ['C04_SOLVER']
     if e == 'insert_nc':
         inst['k_insert_nc.0'] = cap - n + 2     # one rotate per inserted character: the count loop is bounded by the free space
     if e in ('erase_val', 'erase_if'):
@@ -98,7 +105,7 @@ def mkq(e, ch, cap, n, m, ub, extra=None, budget=240, p=None):
         inst.update(INST(cap))
     return dict(entry='q_' + e, cfg=cfg, unwind=unwind,
                 unwindset={**inst, 'll_memcpy.0': big, 'll_memmove.0': big, 'll_memmove.1': big, 'll_memset.0': big, 'll_undef_bytes.0': 40, rname + '.0': rot, rname + '.1': rot},
-                budget=budget, ub=ub, nofunc=ub, solver=os.environ.get('C04_SOLVER', 'minisat'))
+                budget=budget, ub=ub, nofunc=ub, solver=solver)
 
 
 NEEDLE_SRCH = set(x + k for x in SRCH for k in ('_s', '_cs', '_pc', '_s0', '_cs0')) | {'ffo_v', 'ffo_v0', 'ct_v', 'ct_cs'}
